@@ -343,6 +343,38 @@ func vRunC14(c *vCase) {
 		}
 		c.Cov("wire_roundtrips", 1)
 	}
+	// (c) a batch of several records handed over at once (one channel triggering more than once in a block):
+	// every record is its own two-part message, in order; a record of another channel in the batch must not
+	// reach the filtered subscriber
+	batch := []*DataRecord{vGenWireRecord(r, false), vGenWireRecord(r, false), vGenWireRecord(r, false)}
+	batch[0].channelIndex = vW.chanFilter
+	batch[1].channelIndex = vPick(r, 0x0101, 0x0301, 7)
+	batch[2].channelIndex = vW.chanFilter
+	PubRecordsChan <- batch
+	PubSummariesChan <- batch
+	for bi, rec := range batch {
+		m, err := vW.subRecAll.RecvMessageBytes(0)
+		if err != nil {
+			c.Violate("c14:batch-missing", "a batch of %d records was published; the subscriber did not receive message %d: %v", len(batch), bi, err)
+			return
+		}
+		if !vCheckRecordMsg(c, m, rec) {
+			return
+		}
+		m2, err := vW.subSumAll.RecvMessageBytes(0)
+		if err != nil {
+			c.Violate("c14:batch-missing", "a batch of %d summaries was published; the subscriber did not receive message %d: %v", len(batch), bi, err)
+			return
+		}
+		if !vCheckSummaryMsg(c, m2, rec) {
+			return
+		}
+		if rec.channelIndex == vW.chanFilter {
+			wantChan++
+			chanRecs = append(chanRecs, rec)
+		}
+	}
+	c.Cov("wire_batches", 1)
 	// the per-channel subscriber must have received all and only its channel's records, in order
 	for k := 0; k < wantChan; k++ {
 		m, err := vW.subRecChan.RecvMessageBytes(0)
